@@ -70,6 +70,8 @@ func main() {
 		cmdBlocks(os.Args[2:])
 	case "par":
 		cmdPar(os.Args[2:])
+	case "cancel":
+		cmdCancel(os.Args[2:])
 	case "play":
 		cmdPlay(os.Args[2:])
 	case "sweep16":
